@@ -24,7 +24,7 @@ from harness import fparse, syntax as S, workbook as W, xl
 SHEET_SETS = [['S1', 'S1b', "O'x"], ['Data', 'Data 2'], ['S 2', 'S 2b', 'S1'], ['Jan', 'Feb', 'Sum'], ['S1', 'S 2']]
 NUMS = [-2, -1, 0, 1, 2, 3, 7, 10, 100]
 FRACS = [(1, 2), (5, 2), (-1, 4), (3, 10)]
-TEXTS = ['ab', 'AB', 'x', '7', 'total', 'a b', "it's", 'é', '#N/A', 'TRUE']      # (a text that merely spells an error code / a logical value is a text)
+TEXTS = ['ab', 'AB', 'x', '7', 'total', 'a b', "it's", 'é', '#N/A', 'TRUE', 'Infinity', 'NaN']      # (a text that merely spells an error code / a logical value is a text)
 ROWS, COLS = 6, 4
 
 
@@ -445,7 +445,13 @@ def drive(seed, work, mix='c04'):
                 if os.path.exists(path):
                     os.remove(path)
         elif r < t_copy:
-            model = copy.deepcopy(model)
+            try:
+                model = copy.deepcopy(model)
+            except BaseException as e:      # noqa
+                if isinstance(e, (KeyboardInterrupt, SystemExit)):
+                    raise
+                events.append({'build_failed': 'deepcopy raised ' + type(e).__name__ + ': ' + str(e)[:160], 'history': list(hist)})
+                return events
             evs = [L.Evaluator(model), L.Evaluator(model)]
             hist.append(['deepcopy'])
         elif r < t_new:
